@@ -110,6 +110,31 @@ Proof.
   split; [reflexivity|]. eexists. eexists. eexists. split; [vm_compute; reflexivity|]. reflexivity.
 Qed.
 
+(** sibling scopes may define the same name (RFC 7950 5.5 forbids it only along one ancestor chain):
+    container a { container b { typedef t { type int32 { range "1..60"; } default 5; units s; } leaf x { type t; } }
+                  container c { typedef t { type string; default none; } leaf-list y { type t; } } }
+    each leaf gets the typedef of its own scope, whatever the other scope says *)
+Definition td_sib_b := mkTd (T "t") (st_range "int32" "1..60") (Some (T "5")) (T "s").
+Definition td_sib_c := mkTd (T "t") (st "string") (Some (T "none")) [].
+Definition pos_sib_b : pos := (0%nat, [(Some [T "a"; T "b"], [td_sib_b]); (Some [T "a"], [])]).
+Definition pos_sib_c : pos := (0%nat, [(Some [T "a"; T "c"], [td_sib_c]); (Some [T "a"], [])]).
+Definition l_sib_x := mkLeaf pos_sib_b [T "a"; T "b"; T "x"] false (st "t") None [].
+Definition l_sib_y := mkLeaf pos_sib_c [T "a"; T "c"; T "y"] true (st "t") None [].
+Definition E_sib := mkEnv (one_mod [] [])
+  [([T "a"], TCont); ([T "a"; T "b"], TCont); ([T "a"; T "b"; T "x"], TLeaf false pos_sib_b (st "t"));
+   ([T "a"; T "c"], TCont); ([T "a"; T "c"; T "y"], TLeaf true pos_sib_c (st "t"))].
+Lemma sibling_scopes :
+  (exists t, compile_uses true (leaf_fuel E_sib l_sib_x) E_sib l_sib_x 1 = Ok [(t, Some [T "5"], T "s")]
+             /\ t_format t = 11 /\ t_ranges t = [T "1..60"])
+  /\ (exists t, compile_uses true (leaf_fuel E_sib l_sib_y) E_sib l_sib_y 1 = Ok [(t, Some [T "none"], [])]
+                /\ t_format t = fmt_list FmtString /\ t_ranges t = [])
+  /\ model_meets_spec E_sib l_sib_x 1 = true /\ model_meets_spec E_sib l_sib_y 1 = true.
+Proof.
+  split; [eexists; split; [vm_compute; reflexivity|split; reflexivity]|].
+  split; [eexists; split; [vm_compute; reflexivity|split; reflexivity]|].
+  split; vm_compute; reflexivity.
+Qed.
+
 (** a non-trivial input that meets every hypothesis of the correctness theorem:
     typedef t1 { type int32 { range "0..100"; } default 7; }  typedef t2 { type t1 { range "5..50"; } units u; }
     typedef e { type enumeration { enum a { value 3; } enum b { value 0; } enum c; } }
